@@ -165,6 +165,25 @@ impl Prop for C02T {
                 }
             }
         }
+        // one message in ten gets white space next to a ':' inside a header (the library
+        // accepts it); the path rule is textual, so the rewriting carries the same spelling
+        for msg in msgs.iter_mut() {
+            if !rng.chance(1, 10) {
+                continue;
+            }
+            let cands: Vec<usize> = (0..msg.units.len()).filter(|&i| msg.units[i].mnems.len() >= 2 && !msg.units[i].is_common() && msg.units[i].raw.is_none()).collect();
+            if cands.is_empty() {
+                continue;
+            }
+            let u = &mut msg.units[*rng.pick(&cands)];
+            let k = rng.below(u.mnems.len() - 1);
+            let ws = *rng.pick(&[" ", "  ", "\t"]);
+            if rng.chance(1, 2) {
+                u.mnems[k].push_str(ws); // "VOLT :LEV"
+            } else {
+                u.mnems[k + 1] = format!("{ws}{}", u.mnems[k + 1]); // "VOLT: LEV"
+            }
+        }
         let need = need_n(&msgs).max(need_n(&rewrite(&msgs)));
         let ns: Vec<usize> = IFACES[iface].ns.iter().copied().filter(|&n| n >= need).collect();
         let n = if ns.is_empty() { *IFACES[iface].ns.last().unwrap() } else { ns[rng.below(ns.len().min(3))] };
@@ -354,6 +373,9 @@ impl Prop for C02T {
         }
         if sc.msgs.iter().any(|m| m.faulty().map(|j| j + 1 < m.units.len()).unwrap_or(false)) {
             st.bump("reach:unit_after_a_unit_that_failed_in_execution");
+        }
+        if sc.msgs.iter().any(|m| m.units.iter().any(|u| u.mnems.iter().any(|x| x.contains(' ') || x.contains('\t')))) {
+            st.bump("reach:white_space_next_to_a_colon");
         }
         if sc.msgs.iter().any(|m| m.units.is_empty()) {
             st.bump("reach:blank_message");
